@@ -1,6 +1,7 @@
 (* C11 correspondence: inputs and what the implementation returned. *)
 Require Import Coq.Strings.String.
-From PV Require Import Lib.Base Crypto.Blake2b Crypto.Sha512 Crypto.Ed25519Spec C11.Model.
+From PV Require Import Lib.Base Crypto.Hex Crypto.Sha512 Crypto.Ed25519Spec C11.Model.
+From PV Require C11.Vectors.   (* test vectors are part of the runner's cone *)
 Open Scope Z_scope.
 
 Definition X (s : string) : list Z := unhex s.
